@@ -1,4 +1,4 @@
-(* C07: pure facts about bundle stamping (KProg.stamp_*), timetag conversions. *)
+(* C07: pure facts about bundle stamping (the stamp functions of KProg), timetag conversions. *)
 From Coq Require Import ZArith QArith Qround List Bool Lia Lqa.
 Require Import SC3.model.KProg SC3.proofs.C05_frame.
 Import ListNotations.
@@ -39,14 +39,14 @@ Proof. intros H. simpl. apply Qltb_ge. exact H. Qed.
 Lemma check_subtime_mono p s : check_subtime p s = true -> lat_val p <= lat_val s.
 Proof.
   destruct p as [pt|]; simpl.
-  - destruct s as [st|]; [|discriminate]. rewrite negb_true_iff, Qltb_ge. intros H.
-    destruct (Qltb pt 0) eqn:Ep; destruct (Qltb st 0) eqn:Es;
-      rewrite ?Qltb_lt, ?Qltb_ge in *; lra.
+  - destruct s as [st|]; [|discriminate]. rewrite negb_true_iff, Qltb_ge. intros H. simpl.
+    destruct (Qltb pt 0) eqn:Ep; destruct (Qltb st 0) eqn:Es; cbv iota;
+      try apply Qltb_lt in Ep; try apply Qltb_ge in Ep; try apply Qltb_lt in Es; try apply Qltb_ge in Es; lra.
   - intros _. apply (lat_val_nonneg s).
 Qed.
 Lemma check_subtime_imm p s : check_subtime p s = true -> lat_immediate s = true -> lat_immediate p = true.
 Proof.
-  destruct p as [pt|]; simpl; auto. destruct s as [st|]; [|discriminate].
+  destruct p as [pt|]; simpl; auto. destruct s as [st|]; [|discriminate]. simpl.
   rewrite negb_true_iff, Qltb_ge, !Qltb_lt. intros; lra.
 Qed.
 
@@ -159,6 +159,10 @@ Proof.
       apply Zplus_le_compat_r. apply Qtrunc_mono. pose proof two32_pos. nra.
 Qed.
 
+Lemma Forall2_imp {A B} (R S : A -> B -> Prop) l l' :
+  (forall a b, R a b -> S a b) -> Forall2 R l l' -> Forall2 S l l'.
+Proof. intros H F. induction F; constructor; auto. Qed.
+
 Lemma stamp_list_forall2 (f : elem -> option selem) (R : elem -> selem -> Prop) es :
   Forall (fun e => forall s, f e = Some s -> R e s) es ->
   forall ss, stamp_list f es = Some ss -> Forall2 R es ss.
@@ -185,7 +189,7 @@ Proof.
       eapply Forall_impl; [|exact IH]. intros e He s Hs. destruct (He l s Hs) as (A & B & C).
       repeat split; auto. }
     repeat split.
-    + constructor. eapply Forall2_impl; [|exact F2]. intros a b (A & _); exact A.
+    + constructor. eapply Forall2_imp; [|exact F2]. intros a b (A & _); exact A.
     + apply nest_ok_bundle. unfold nest_all. clear -F2. induction F2; constructor; auto.
       destruct H as (_ & B & C). split; auto.
     + intros i t g (-> & -> & ->). simpl. apply stamp_order. exact Ec.
@@ -202,7 +206,7 @@ Proof.
     apply Forall_forall. intros e _ s Hs'. destruct (stamp_elem_spec md T e lat s Hs') as (A & B & C).
     repeat split; auto. }
   split.
-  - constructor. eapply Forall2_impl; [|exact F2]. intros a b (A & _); exact A.
+  - constructor. eapply Forall2_imp; [|exact F2]. intros a b (A & _); exact A.
   - apply nest_ok_bundle. unfold nest_all. clear -F2. induction F2; constructor; auto.
     destruct H as (_ & B & C). split; auto.
 Qed.
